@@ -539,11 +539,20 @@ func (l *IPFSLog) Join(otherLog iface.IPFSLog, size int) (iface.IPFSLog, error) 
 
 	verifPoint(l, "join.enter")
 	defer verifPoint(l, "join.exit")
+
+	// Read the other log before taking our own lock: holding it while waiting
+	// for the other log's lock deadlocks two logs joining each other.
+	// The heads are read first and used for the whole join: the entries read
+	// afterwards can only have grown, so they contain the full history of
+	// those heads (a snapshot of the other log at the time its heads were read).
+	otherHeads := otherLog.RawHeads()
+	otherEntries := otherLog.GetEntries()
+
 	l.lock.Lock()
 	defer l.lock.Unlock()
 	verifPoint(l, "join.locked")
 
-	newItems := difference(otherLog.GetEntries(), otherLog.RawHeads().Slice(), l)
+	newItems := difference(otherEntries, otherHeads.Slice(), l)
 	verifPoint(l, "join.diffed")
 
 	wg := &sync.WaitGroup{}
@@ -604,7 +613,7 @@ func (l *IPFSLog) Join(otherLog iface.IPFSLog, size int) (iface.IPFSLog, error) 
 
 	verifPoint(l, "join.indexed")
 
-	mergedHeads := entry.FindHeads(l.heads.Merge(otherLog.RawHeads()))
+	mergedHeads := entry.FindHeads(l.heads.Merge(otherHeads))
 
 	for idx, e := range mergedHeads {
 		// notReferencedByNewItems
